@@ -9,6 +9,7 @@ following or not).
 import LndModel.C01.Inv3
 import LndModel.C01.Mirror
 import LndModel.C01.Cap
+import LndModel.C01.Sys
 set_option linter.unusedSimpArgs false
 
 namespace LndModel.C01
@@ -56,14 +57,56 @@ theorem inv_init {n : Node} (h : InitOK n) : Inv n := by
     · simp [Node.chain, CChain.all, p1] at hcm; subst hcm; exact ⟨h.consL, h.capL⟩
     · simp [Node.chain, CChain.all, p2] at hcm; subst hcm; exact ⟨h.consR, h.capR⟩
 
-/-- **conservation** (must).  For every node reachable by ANY operation list from a well-formed
-    initial state, every commitment on either chain satisfies, to the millisatoshi,
+/-! ### Go's behaviour on a bad signature
+
+`Node.step` / `Node.run` use `receiveCommit`, which rolls the commit heights back when the
+signature does not verify.  The Go code does not (`fetchCommitmentView` mutates the heights before
+the signature check; the link fails the channel afterwards).  `stepGo` / `runGo` are the faithful
+versions; the headline theorems below are stated for `runGo` and for runs in which no
+`ReceiveNewCommitment` answered Invalid*SigError (`noInvalidSig`).  The restriction is necessary:
+see `after_invalid_sig_capacity_assertion_fires`. -/
+
+theorem receiveCommitGo_eq (n : Node) (sv : SigView) (h : (n.receiveCommitGo sv).1 ≠ .invalidSig) :
+    n.receiveCommitGo sv = n.receiveCommit sv := by
+  unfold Node.receiveCommitGo Node.receiveCommit at *
+  simp only at h ⊢
+  split
+  · rename_i hs
+    simp only [hs] at h
+    split
+    · rfl
+    · rename_i cm n' hf
+      simp only [hf] at h
+      by_cases hc : cm.sigView = sv
+      · simp [hc]
+      · simp [hc] at h
+  · rfl
+
+theorem stepGo_eq (n : Node) (op : Op) (h : (n.stepGo op).1 ≠ .invalidSig) : n.stepGo op = n.step op := by
+  cases op <;> try rfl
+  exact receiveCommitGo_eq n _ h
+
+theorem runGo_eq (n : Node) (ops : List Op) (h : n.noInvalidSig ops) : n.runGo ops = n.run ops := by
+  unfold Node.runGo Node.run
+  induction ops generalizing n with
+  | nil => rfl
+  | cons o os ih =>
+    simp only [List.foldl_cons]
+    obtain ⟨h1, h2⟩ := h
+    rw [← stepGo_eq n o h1]
+    exact ih _ h2
+
+/-- **conservation** (must).  For every node reachable from a well-formed initial state by ANY
+    list of API operations (any order and arguments, protocol following or not) in which no
+    `ReceiveNewCommitment` answered Invalid*SigError, every commitment on either chain satisfies,
+    to the millisatoshi,
     `ourBalance + theirBalance + Σ htlc amounts + 1000·fee (+ anchors) = 1000·capacity`,
     and the outputs of its transaction plus the fee never exceed the capacity. -/
-theorem conservation (n0 : Node) (h0 : InitOK n0) (ops : List Op) (c : Chain) (cm : Commit)
-    (hcm : cm ∈ ((n0.run ops).chain c).all) :
+theorem conservation (n0 : Node) (h0 : InitOK n0) (ops : List Op) (hok : n0.noInvalidSig ops)
+    (c : Chain) (cm : Commit) (hcm : cm ∈ ((n0.runGo ops).chain c).all) :
     cm.our + cm.their + sumBy Htlc.amt cm.htlcs + 1000 * cm.fee + anchorsMsat n0.cfg = 1000 * n0.cfg.capacity ∧
     outsTotal cm.outs + cm.fee ≤ n0.cfg.capacity := by
+  rw [runGo_eq n0 ops hok] at hcm
   have hI := inv_run (inv_init h0) ops
   have := hI.cons c cm hcm
   rw [run_cfg] at this
@@ -86,10 +129,11 @@ theorem fee_paid_in_full {n : Node} {c : Chain} {r : ViewResult} {a b d e : Nat}
 
 /-- **capacity_assertion_unreachable**.  The bound "outputs + fee ≤ capacity" is not merely
     enforced by the explicit assertion in `createUnsignedCommitmentTx`: in every reachable state
-    that assertion can never fire (neither when signing nor when receiving a commitment); the
-    bound is a consequence of conservation. -/
-theorem capacity_assertion_unreachable (n0 : Node) (h0 : InitOK n0) (ops : List Op) :
-    ((n0.run ops).sign).1 ≠ .overCapacity ∧ ∀ sv, ((n0.run ops).receiveCommit sv).1 ≠ .overCapacity := by
+    (no Invalid*SigError so far) that assertion can never fire (neither when signing nor when
+    receiving a commitment); the bound is a consequence of conservation. -/
+theorem capacity_assertion_unreachable (n0 : Node) (h0 : InitOK n0) (ops : List Op) (hok : n0.noInvalidSig ops) :
+    ((n0.runGo ops).sign).1 ≠ .overCapacity ∧ ∀ sv, ((n0.runGo ops).receiveCommit sv).1 ≠ .overCapacity := by
+  rw [runGo_eq n0 ops hok]
   have hI := inv_run (inv_init h0) ops
   generalize n0.run ops = n at hI
   constructor
@@ -263,7 +307,8 @@ theorem honest_sig_verifies_partial {a b a' : Node} {sv : SigView} (hA : LogAgre
 /-- **mirror_signed_partial** (partial form of `mirror_when_idle`).  Under `LogAgreement` the
     commitment the signer appends to its remote chain and the one the receiver appends to its
     local chain are mirror images: same height, balances swapped to the millisatoshi, same fee,
-    same fee rate, identical transaction.
+    same fee rate, identical transaction, and the same HTLCs (index, amount, expiry, hash, dust
+    flag) with the direction flipped.
 
     Full statement (not proved here): `mirror_when_idle` — in `System`, whenever both queues are
     empty and no update is pending on either side, `A.localCommit = mirror B.remoteCommit` and
@@ -275,7 +320,8 @@ theorem mirror_signed_partial {a b a' b' : Node} {sv : SigView} (hA : LogAgreeme
     let ca := a'.chainR.tip
     let cb := b'.chainL.tip
     cb.height = ca.height ∧ cb.our = ca.their ∧ cb.their = ca.our ∧ cb.fee = ca.fee ∧
-    cb.feePerKw = ca.feePerKw ∧ cb.outs = ca.outs := by
+    cb.feePerKw = ca.feePerKw ∧ cb.outs = ca.outs ∧
+    (∃ o i, ca.htlcs = o ++ i ∧ cb.htlcs.map mirrorHtlc = i ++ o) := by
   unfold Node.sign at hs
   split at hs
   · simp at hs
@@ -302,7 +348,8 @@ theorem mirror_signed_partial {a b a' b' : Node} {sv : SigView} (hA : LogAgreeme
               have t2 : ({ tail := b1.chainL.tail, pend := b1.chainL.pend ++ [cmb] } : CChain).tip = cmb :=
                 tip_push b1.chainL cmb
               simp only [t1, t2]
-              exact constructions_mirror hA hfa hfb
+              obtain ⟨q1, q2, q3, q4, q5, q6⟩ := constructions_mirror hA hfa hfb
+              exact ⟨q1, q2, q3, q4, q5, q6, constructions_mirror_htlcs hA hfa hfb⟩
             · simp at hr
         · rename_i hne
           simp only [Prod.mk.injEq] at hr
@@ -316,6 +363,102 @@ theorem agreeCheck_sound {a b : Node} (h : agreeCheck a b = true) : LogAgreement
   obtain ⟨⟨⟨⟨⟨⟨⟨⟨⟨⟨h1, h2⟩, h3⟩, h4⟩, h5⟩, h6⟩, h7⟩, h8⟩, h9⟩, h10⟩, h11⟩ := h
   exact ⟨h1, ⟨h2, h3, h4, h5, h6⟩, h7, h8, h9, h10, h11⟩
 
+
+/-! ### all interleavings: the cross-node index invariant
+
+`System.lrun` runs the two-party system (two C01 nodes, two FIFO queues) under the discipline of
+lnd's link: any interleaving of local actions of either node (add / settle / fail /
+malformed-fail / sign, whatever their outcome) and in-order deliveries; an accepted
+commitment_signed is revoked for in the same handler; a rejected message fails the channel
+(`none`).  update_fee is not among the actions yet (see the notes). -/
+
+open LndModel.C03 in
+/-- **sig_indices_agree** (cross-node, ALL interleavings of the disciplined system).  Whenever a
+    commitment_signed is the oldest undelivered message, it belongs to the sender's single pending
+    remote commitment `P`, and the receiver's state is exactly the one `P` was built for: the
+    receiver has received precisely the sender's updates `P` covers (`P.ourMsg`), the receiver's
+    own updates the sender had acknowledged when signing are precisely the ones the receiver knows
+    to be acknowledged (`P.theirMsg`), and `P` is the receiver's next height.  These are the
+    arguments `ReceiveNewCommitment` passes to `fetchCommitmentView`; a wrong
+    remoteACKedIndex / localACKedIndex on either side would falsify this theorem.
+    Proved by simulating `System.lrun` with C03's sync skeleton (`sim_step`) and using its
+    inductive invariant `Inv2`. -/
+theorem sig_indices_agree (s0 : System) (h0 : SysFresh s0) (steps : List LSysStep) (s : System)
+    (hr : s0.lrun steps = some s) :
+    (∀ sv rest, s.ab = .commitSig sv :: rest → ∃ P, s.a.chainR.pend = [P] ∧
+      P.ourMsg = s.b.logR.logIndex ∧ P.theirMsg = s.b.chainR.tail.ourMsg ∧
+      P.height = s.b.chainL.tip.height + 1) ∧
+    (∀ sv rest, s.ba = .commitSig sv :: rest → ∃ P, s.b.chainR.pend = [P] ∧
+      P.ourMsg = s.a.logR.logIndex ∧ P.theirMsg = s.a.chainR.tail.ourMsg ∧
+      P.height = s.a.chainL.tip.height + 1) := by
+  obtain ⟨xs, hsim⟩ := sim_run (sim_init h0) steps hr
+  have hI := inv2_reachable xs
+  constructor
+  · intro sv rest hq
+    have hab := hsim.ab
+    rw [hq] at hab
+    cases hkq : (SSys.init.lrun xs).ab with
+    | nil => rw [hkq] at hab; cases hab
+    | cons mk krest =>
+      rw [hkq] at hab
+      cases mk with
+      | sig hh ix =>
+        obtain ⟨h1, h2, h3, h4, h5⟩ := head_sig_skeleton hI hkq
+        exact pending_of_sim hsim.a hsim.b h1 h2 h3 h4 h5
+      | upd o => cases o <;> exact absurd hab.1 (by intro h; cases h)
+      | rev _ => exact absurd hab.1 (by intro h; cases h)
+  · intro sv rest hq
+    have hba := hsim.ba
+    rw [hq] at hba
+    cases hkq : (SSys.init.lrun xs).ba with
+    | nil => rw [hkq] at hba; cases hba
+    | cons mk krest =>
+      rw [hkq] at hba
+      cases mk with
+      | sig hh ix =>
+        obtain ⟨h1, h2, h3, h4, h5⟩ := head_sig_skeleton_ba hI hkq
+        exact pending_of_sim hsim.b hsim.a h1 h2 h3 h4 h5
+      | upd o => cases o <;> exact absurd hba.1 (by intro h; cases h)
+      | rev _ => exact absurd hba.1 (by intro h; cases h)
+
+open LndModel.C03 in
+/-- **idle_indices_mirror** (cross-node, all interleavings of the disciplined system).  When both
+    queues are empty and neither side has an unacknowledged commitment outstanding, each side's
+    local commitment and the peer's view of it are at the same height and cover the same updates
+    (mirrored message indices).  This is the index-level part of `mirror_when_idle`. -/
+theorem idle_indices_mirror (s0 : System) (h0 : SysFresh s0) (steps : List LSysStep) (s : System)
+    (hr : s0.lrun steps = some s) (hab : s.ab = []) (hba : s.ba = [])
+    (hpa : s.a.chainR.pend = []) (hpb : s.b.chainR.pend = []) :
+    s.b.chainL.tail.height = s.a.chainR.tail.height ∧
+    s.b.chainL.tail.ourMsg = s.a.chainR.tail.theirMsg ∧ s.b.chainL.tail.theirMsg = s.a.chainR.tail.ourMsg ∧
+    s.a.chainL.tail.height = s.b.chainR.tail.height ∧
+    s.a.chainL.tail.ourMsg = s.b.chainR.tail.theirMsg ∧ s.a.chainL.tail.theirMsg = s.b.chainR.tail.ourMsg := by
+  obtain ⟨xs, hsim⟩ := sim_run (sim_init h0) steps hr
+  obtain ⟨⟨l1, l2⟩, _, _, m1, m2, _, _⟩ := inv2_reachable xs
+  generalize SSys.init.lrun xs = k at hsim l1 l2 m1 m2
+  have qa : k.ab = [] := by
+    have := hsim.ab; rw [hab] at this
+    cases hk : k.ab with
+    | nil => rfl
+    | cons _ _ => rw [hk] at this; cases this
+  have qb : k.ba = [] := by
+    have := hsim.ba; rw [hba] at this
+    cases hk : k.ba with
+    | nil => rfl
+    | cons _ _ => rw [hk] at this; cases this
+  have ra : k.a.rp = none := by rw [hsim.a.rp, hpa]; rfl
+  have rb : k.b.rp = none := by rw [hsim.b.rp, hpb]; rfl
+  have r1 := l1.revs; have s1 := l1.sigs; have r2 := l2.revs; have s2 := l2.sigs
+  simp only [qa, qb, nRev_nil, nSig_nil, Nat.add_zero, tipH_none ra, tipH_none rb, hsim.a.lp.2, hsim.b.lp.2,
+    List.length_nil] at r1 s1 r2 s2
+  have t1 := m1.tail0 r2
+  have t2 := m2.tail0 r1
+  rw [hsim.b.ltIdx, hsim.a.rtIdx] at t1
+  rw [hsim.a.ltIdx, hsim.b.rtIdx] at t2
+  simp only [idxOf, Idx.swap, Idx.mk.injEq] at t1 t2
+  refine ⟨?_, t1.1, t1.2, ?_, t2.1, t2.2⟩
+  · rw [← hsim.b.lt, ← hsim.a.rt]; exact r2
+  · rw [← hsim.a.lt, ← hsim.b.rt]; exact r1
 
 /-! ### non-vacuity: concrete instances of every hypothesis used above -/
 
@@ -358,6 +501,37 @@ example : agreeCheck (demoNode.run [.addHTLC 5000000 144 7]) (demoPeer.run [.rec
 example : ∃ sv a', (demoNode.run [.addHTLC 5000000 144 7]).sign = (.ok, a', some sv) ∧
     ((demoPeer.run [.receiveHTLC 0 5000000 144 7]).receiveCommit sv).1 = .ok := by
   refine ⟨_, _, rfl, ?_⟩
+  decide
+
+
+/-- the `noInvalidSig` hypothesis is satisfiable on a run that creates commitments … -/
+example : demoNode.noInvalidSig [.addHTLC 5000000 144 7, .sign] := by
+  simp only [Node.noInvalidSig, and_true]
+  decide
+
+/-- … and it is necessary: in the Go-faithful model, after a rejected signature the commit heights
+    stay set, the next (correct) construction no longer debits the HTLC and the capacity assertion
+    of `createUnsignedCommitmentTx` fires (the link fails the channel before that can happen). -/
+theorem after_invalid_sig_capacity_assertion_fires :
+    let n1 := demoNode.runGo [.receiveHTLC 0 5000000 144 7, .receiveCommit ⟨1, 253, []⟩]
+    ((demoNode.runGo [.receiveHTLC 0 5000000 144 7]).stepGo (.receiveCommit ⟨1, 253, []⟩)).1 = .invalidSig ∧
+    (n1.stepGo (.receiveCommit
+      ⟨1, 253, [⟨499774, .toLocal, 0, 0⟩, ⟨495000, .toRemote, 0, 0⟩, ⟨5000, .received, 144, 7⟩]⟩)).1 = .overCapacity := by
+  decide
+
+
+/-- a fresh two-party system, and a disciplined run in which a commitment_signed reaches the head of
+    the queue (hypotheses of `sig_indices_agree` are satisfiable). -/
+def demoSys : System := { a := demoNode, b := demoPeer }
+
+example : SysFresh demoSys := by
+  refine ⟨⟨rfl, rfl, rfl, rfl, ⟨rfl, rfl⟩, ⟨rfl, rfl⟩, rfl, rfl⟩,
+    ⟨rfl, rfl, rfl, rfl, ⟨rfl, rfl⟩, ⟨rfl, rfl⟩, rfl, rfl⟩, rfl, rfl⟩
+
+example : (demoSys.lrun [.actA (.add 5000000 144 7), .actA .sign, .dlvAB]).map
+    (fun s => s.ab.map (fun m => match m with | .commitSig _ => true | _ => false)) = some [true] := by decide
+example : (demoSys.lrun [.actA (.add 5000000 144 7), .actA .sign, .dlvAB, .dlvAB, .dlvBA]).map
+    (fun s => (s.ab.length, s.ba.length, s.a.chainR.pend.length, s.b.chainL.tail.height)) = some (0, 0, 0, 1) := by
   decide
 
 end LndModel.C01
